@@ -171,10 +171,10 @@ Proof.
   step noop. try (step noop). step rw_assign. apply IH; assumption.
 Qed.
 
-Lemma ev_defaults_sim : forall os st sc f, good (ev_defaults m1 ev1 st sc f os) -> ev_defaults m2 ev2 st sc f os = ev_defaults m1 ev1 st sc f os.
+Lemma ev_defaults_sim : forall os st sc bnd, good (ev_defaults m1 ev1 st sc bnd os) -> ev_defaults m2 ev2 st sc bnd os = ev_defaults m1 ev1 st sc bnd os.
 Proof.
-  induction os as [|[x e] os IH]; intros st sc f H; simpl in *; [reflexivity|].
-  destruct (fr_index (get_frame st f) x); [apply IH; assumption|].
+  induction os as [|[x e] os IH]; intros st sc bnd H; simpl in *; [reflexivity|].
+  destruct (existsb (String.eqb x) bnd); [apply IH; assumption|].
   step noop. try (step noop). apply IH; assumption.
 Qed.
 Lemma apply_fn_sim : forall st c args, good (apply_fn m1 ev1 st c args) -> apply_fn m2 ev2 st c args = apply_fn m1 ev1 st c args.
